@@ -105,6 +105,7 @@ type Exec struct {
 	CaptureMark int
 	FeasCalls int
 	Tags      map[int]string // harness-given names of objects (vTag)
+	stubCalls map[string]int
 	PruneIf   bool // ask the solver at every symbolic branch whether each side is feasible
 	Deadline  time.Time
 	MaxTerms  int
@@ -155,7 +156,7 @@ func NewExec(prog *ssa.Program, pkg *ssa.Package, mode string) *Exec {
 		inputBy: map[string]*Term{}, axiomSeen: map[string]bool{}, ufSites: map[string][]*Term{},
 		UFUsed: map[string]int{}, Known: map[string]bool{}, Unwind: 40, MaxTerms: 3000000, MaxIters: 200000,
 		finfo: map[*ssa.Function]*FuncInfo{}, FuncsSeen: map[string]string{}, Stubs: map[string]int{},
-		FloatSites: map[string]string{}, LemmaPoints: map[string][]float64{}, Tags: map[int]string{}}
+		FloatSites: map[string]string{}, LemmaPoints: map[string][]float64{}, Tags: map[int]string{}, stubCalls: map[string]int{}}
 	switch mode {
 	case "R", "":
 		e.F = &ArithR{S: s}
